@@ -32,7 +32,7 @@ partial def parse : List String → List Arg → List Arg × List String
   | [], acc => (acc, [])
   | t :: rest, acc =>
     if t == ")" || t == "]" then (acc, rest)
-    else if t == "(" || t == "[" then
+    else if t == "(" || t == "[" || t == "G(" then
       let (inner, rest') := parse rest []
       parse rest' (acc ++ [Arg.seq inner])
     else if t == "D(" then
